@@ -161,6 +161,7 @@ pub fn profile(name: &str) -> Profile {
         "len" => Profile { name: "len", w: [5, 5, 5, 4, 1, 1, 1, 1, 0, 8, 8, 1], drain16: 8, post16: 10, max_pre: 8, skips: true, huge16: 0 },
         "foreach" => Profile { name: "foreach", w: [2, 2, 2, 2, 1, 1, 6, 6, 6, 0, 0, 0], drain16: 8, post16: 6, max_pre: 3, skips: false, huge16: 0 },
         "iterwait" => Profile { name: "iterwait", w: [6, 6, 6, 6, 2, 2, 1, 1, 1, 1, 1, 2], drain16: 8, post16: 6, max_pre: 6, skips: true, huge16: 0 },
+        "skiprace" => Profile { name: "skiprace", w: [1, 1, 10, 10, 0, 0, 1, 1, 1, 1, 1, 6], drain16: 4, post16: 8, max_pre: 5, skips: true, huge16: 0 },
         "race" => Profile { name: "race", w: [6, 3, 3, 3, 1, 1, 1, 1, 0, 2, 2, 1], drain16: 16, post16: 2, max_pre: 2, skips: true, huge16: 0 },
         "drops" => Profile { name: "drops", w: [5, 5, 8, 8, 1, 1, 1, 1, 1, 0, 0, 2], drain16: 5, post16: 4, max_pre: 6, skips: true, huge16: 0 },
         other => panic!("unknown profile {other}"),
